@@ -597,6 +597,35 @@ func init() {
 		p.Enumerate(d, false, 4096, 5)
 		p.Tail()
 	}})
+	// A SYMLINK whose target needs two blocks when one is free: refused without effect, or stored completely.
+	Probes = append(Probes, Probe{"symlink-target-with-one-block-free", []string{"C09", "C02", "C05"}, 1700, func(p *P) {
+		filler := p.Create(p.Root, "filler").RFh
+		off := 0
+		for i := 0; i < 400; i++ {
+			fb, _ := p.S.Free()
+			if fb <= 1 {
+				break
+			}
+			p.Write(filler, off, 4096, 2)
+			off += 4096
+		}
+		if fb, _ := p.S.Free(); fb != 1 {
+			return
+		}
+		p.Symlink(p.Root, "l", strings.Repeat("t", 5000))
+		p.Lookup(p.Root, "l")
+		p.S.WaitIdle()
+		p.T.Emit(TakeSnap(p.S, "run", true))
+		p.Symlink(p.Root, "m", strings.Repeat("u", 3000)) // fits in the one block
+		c := p.Lookup(p.Root, "m")
+		if c.St == "OK" {
+			rl := p.Call("READLINK", c.RFh)
+			p.do(rl)
+		}
+		p.Dump()
+		p.Restart()
+		p.Tail()
+	}})
 	// An operation that allocates an index block and then fails for lack of a second block must give the first one
 	// back everywhere (allocator, cached inode); the number must not stay in the cached inode and reach the disk later.
 	for _, variant := range []string{"write", "read", "writespan"} {
